@@ -30,16 +30,20 @@ Qed.
 Lemma natives_simple_nnn h h' : no_new_natives h h' -> natives_simple h -> natives_simple h'.
 Proof. intros Hn Hs a hd n Ha. apply (Hs a hd n). apply Hn. exact Ha. Qed.
 
-Lemma close_upvalues_go_nnn : forall fuel top s s',
-  close_upvalues_go fuel top s = ClOk s' -> no_new_natives (st_heap s) (st_heap s').
+Lemma close_upvalues_go_nnn : forall fuel top s,
+  match close_upvalues_go fuel top s with
+  | ClOk s' | ClErr _ s' => no_new_natives (st_heap s) (st_heap s')
+  | ClStop _ _ => True
+  end.
 Proof.
-  induction fuel as [|f IH]; intros top s s' H; cbn [close_upvalues_go] in H; [discriminate|].
-  destruct (st_open s) as [a|]; [|inversion H; apply nnn_refl].
-  destruct (hget (st_heap s) a) as [[| | | | |u]|] eqn:Ea; try discriminate.
-  destruct (u_loc u) as [l|]; [|discriminate].
-  destruct (l <? top); [inversion H; apply nnn_refl|].
-  apply IH in H. cbn [set_open set_heap st_heap] in H.
-  eapply nnn_trans; [|exact H]. apply nnn_hset. intros; discriminate.
+  induction fuel as [|f IH]; intros top s; cbn [close_upvalues_go]; [exact I|].
+  destruct (st_open s) as [a|]; [|apply nnn_refl].
+  destruct (hget (st_heap s) a) as [[| | | | |u]|] eqn:Ea; try exact I; try apply nnn_refl.
+  destruct (u_loc u) as [l|]; [|exact I].
+  destruct (l <? top); [apply nnn_refl|].
+  match goal with |- match close_upvalues_go f top ?x with _ => _ end => specialize (IH top x) end.
+  destruct (close_upvalues_go f top _); try exact I; cbn [set_open set_heap st_heap] in IH;
+    (eapply nnn_trans; [|exact IH]; apply nnn_hset; intros; discriminate).
 Qed.
 
 (* peel heap writes of objects that are not native function values *)
@@ -51,7 +55,7 @@ Ltac nnn_peel :=
          end.
 
 Ltac nnn_done H :=
-  crack H; try (inversion H; subst; clear H); note_heap;
+  crack H; cbn [res_st] in H; try (inversion H; subst; clear H); note_heap;
   unfold set_table in *; cbn [st_heap set_calls set_globals set_stack set_open set_log set_heap spop_n sraw_set] in *;
   repeat match goal with E : st_heap ?a = _ |- _ => rewrite E in *; clear E end;
   nnn_peel.
@@ -62,50 +66,55 @@ Variable bld : build.
 Variable P : program.
 Variable reenter : N -> state -> rres.
 
-Lemma i_8_nnn opc ip0 ip s ip' s' : i_8 P opc ip0 ip s = SNext ip' s' -> no_new_natives (st_heap s) (st_heap s').
+Lemma i_8_nnn opc ip0 ip s s' : res_st (i_8 P opc ip0 ip s) = Some s' -> no_new_natives (st_heap s) (st_heap s').
 Proof. unfold i_8, salloc, halloc. intros H. nnn_done H. Qed.
-Lemma i_31_nnn opc ip0 ip s ip' s' : i_31 opc ip0 ip s = SNext ip' s' -> no_new_natives (st_heap s) (st_heap s').
+Lemma i_31_nnn opc ip0 ip s s' : res_st (i_31 opc ip0 ip s) = Some s' -> no_new_natives (st_heap s) (st_heap s').
 Proof. unfold i_31, salloc, halloc. intros H. nnn_done H. Qed.
-Lemma i_37_42_nnn opc ip0 ip s ip' s' : i_37_42 P opc ip0 ip s = SNext ip' s' -> no_new_natives (st_heap s) (st_heap s').
+Lemma i_37_42_nnn opc ip0 ip s s' : res_st (i_37_42 P opc ip0 ip s) = Some s' -> no_new_natives (st_heap s) (st_heap s').
 Proof. unfold i_37_42, salloc, halloc. intros H. destruct (opc =? 37)%N; nnn_done H. Qed.
-Lemma i_33_nnn opc ip0 ip s ip' s' : i_33 F opc ip0 ip s = SNext ip' s' -> no_new_natives (st_heap s) (st_heap s').
+Lemma i_33_nnn opc ip0 ip s s' : res_st (i_33 F opc ip0 ip s) = Some s' -> no_new_natives (st_heap s) (st_heap s').
 Proof. unfold i_33. intros H. nnn_done H. Qed.
-Lemma i_40_nnn opc ip0 ip s ip' s' : i_40 F opc ip0 ip s = SNext ip' s' -> no_new_natives (st_heap s) (st_heap s').
+Lemma i_40_nnn opc ip0 ip s s' : res_st (i_40 F opc ip0 ip s) = Some s' -> no_new_natives (st_heap s) (st_heap s').
 Proof. unfold i_40. intros H. nnn_done H. Qed.
-Lemma i_41_nnn opc ip0 ip s ip' s' : i_41 F opc ip0 ip s = SNext ip' s' -> no_new_natives (st_heap s) (st_heap s').
+Lemma i_41_nnn opc ip0 ip s s' : res_st (i_41 F opc ip0 ip s) = Some s' -> no_new_natives (st_heap s) (st_heap s').
 Proof. unfold i_41. intros H. nnn_done H. Qed.
-Lemma i_39_nnn opc ip0 ip s ip' s' : i_39 F opc ip0 ip s = SNext ip' s' -> no_new_natives (st_heap s) (st_heap s').
+Lemma i_39_nnn opc ip0 ip s s' : res_st (i_39 F opc ip0 ip s) = Some s' -> no_new_natives (st_heap s) (st_heap s').
 Proof.
-  intros H. destruct (nth_row_heap F _ _ _ _ _ _ H) as (a & t & key & val & t1 & t2 & _ & _ & _ & _ & _ & ->).
+  intros H. destruct (nth_row_heap F _ _ _ _ _ H) as [->|(a & t & key & val & t1 & t2 & _ & _ & _ & _ & _ & ->)];
+    [apply nnn_refl|].
   unfold row_heap. nnn_peel.
 Qed.
-Lemma i_22_nnn opc ip0 ip s ip' s' : i_22 opc ip0 ip s = SNext ip' s' -> no_new_natives (st_heap s) (st_heap s').
+Lemma i_22_nnn opc ip0 ip s s' : res_st (i_22 opc ip0 ip s) = Some s' -> no_new_natives (st_heap s) (st_heap s').
 Proof.
-  unfold i_22. intros H. destruct (st_calls s) as [|fr rest]; [discriminate|]. cbv zeta in H.
-  destruct (close_upvalues_from _ _) as [s2| |] eqn:Ec; try discriminate.
-  apply close_upvalues_go_nnn in Ec. cbn [set_calls st_heap] in Ec.
-  destruct (sclear_until s2 _) as [s3 v] eqn:E3. apply sclear_until_heap in E3.
-  destruct rest; [discriminate|]. apply push_next_heap in H. rewrite H, E3. exact Ec.
+  unfold i_22. intros H. destruct (st_calls s) as [|fr rest]; [cbn [res_st] in H; inversion H; apply nnn_refl|]. cbv zeta in H.
+  pose proof (close_upvalues_go_nnn (S (length (st_heap (set_calls s rest)))) (N.to_nat (fr_off fr)) (set_calls s rest)) as Ec.
+  unfold close_upvalues_from in H. destruct (close_upvalues_go _ _ _) as [s2|e s2|]; [| |discriminate H].
+  - cbn [set_calls st_heap] in Ec. destruct (sclear_until s2 _) as [s3 v] eqn:E3. apply sclear_until_heap in E3.
+    destruct rest; [cbn [res_st] in H; inversion H; subst; rewrite E3; exact Ec|].
+    apply push_next_heap in H. rewrite H, E3. exact Ec.
+  - cbn [res_st] in H. inversion H; subst. exact Ec.
 Qed.
-Lemma i_46_nnn opc ip0 ip s ip' s' : i_46 P opc ip0 ip s = SNext ip' s' -> no_new_natives (st_heap s) (st_heap s').
+Lemma i_46_nnn opc ip0 ip s s' : res_st (i_46 P opc ip0 ip s) = Some s' -> no_new_natives (st_heap s) (st_heap s').
 Proof.
-  unfold i_46. intros H. destruct (op_u32 P ip); [|discriminate]. destruct (top_offset s); [|discriminate].
-  destruct (close_upvalues_from _ _) as [s2| |] eqn:Ec; try discriminate.
-  apply close_upvalues_go_nnn in Ec. inversion H; subst. exact Ec.
+  unfold i_46. intros H. destruct (op_u32 P ip) as [idx|]; [|discriminate]. destruct (top_offset s) as [off|]; [|discriminate].
+  pose proof (close_upvalues_go_nnn (S (length (st_heap s))) (off + N.to_nat idx) s) as Ec.
+  unfold close_upvalues_from in H. destruct (close_upvalues_go _ _ _) as [s2|e s2|]; [| |discriminate H];
+    cbn [res_st] in H; inversion H; subst; exact Ec.
 Qed.
-Lemma i_43_44_nnn opc ip0 ip s ip' s' : i_43_44 P opc ip0 ip s = SNext ip' s' -> no_new_natives (st_heap s) (st_heap s').
+Lemma i_43_44_nnn opc ip0 ip s s' : res_st (i_43_44 P opc ip0 ip s) = Some s' -> no_new_natives (st_heap s) (st_heap s').
 Proof. unfold i_43_44. intros H. destruct (opc =? 43)%N; nnn_done H. Qed.
-Lemma i_45_nnn opc ip0 ip s ip' s' : i_45 P opc ip0 ip s = SNext ip' s' -> no_new_natives (st_heap s) (st_heap s').
+Lemma i_45_nnn opc ip0 ip s s' : res_st (i_45 P opc ip0 ip s) = Some s' -> no_new_natives (st_heap s) (st_heap s').
 Proof. unfold i_45, salloc, halloc. intros H. nnn_done H. Qed.
 
 (* NativeFunctionPointer: the new native function value is named by the string operand *)
-Lemma i_38_simple opc ip0 ip s ip' s' : i_38 P opc ip0 ip s = SNext ip' s' ->
+Lemma i_38_simple opc ip0 ip s s' : res_st (i_38 P opc ip0 ip s) = Some s' ->
   (forall hd b n, op_u32 P ip = Some hd -> read_str hd (p_data P) = StrOk b ->
      find_native (handle_of_bytes b) all_natives = Some n -> simple n = true) ->
   natives_simple (st_heap s) -> natives_simple (st_heap s').
 Proof.
   unfold i_38, salloc, halloc. intros H Hname Hs.
-  destruct (op_u32 P ip) as [hd|] eqn:Eh; [|discriminate]. destruct (read_str hd (p_data P)) as [b| |] eqn:Eb; try discriminate.
+  destruct (op_u32 P ip) as [hd|] eqn:Eh; [|discriminate]. destruct (read_str hd (p_data P)) as [b| |] eqn:Eb;
+    [| cbn [res_st] in H; inversion H; subst; exact Hs | discriminate].
   apply push_next_heap in H. rewrite H. cbn [set_heap st_heap].
   intros a hd' n Ha En. destruct (hget_app_inv _ _ _ _ Ha) as [H1|[_ E]]; [eapply Hs; eauto|].
   inversion E; subst hd'. eapply Hname; eauto.
@@ -119,20 +128,21 @@ Definition native_pointers_simple (P : program) : Prop :=
   forall ip hd b n, opcode_at P ip = 38%N -> op_u32 P (ip + 1) = Some hd -> read_str hd (p_data P) = StrOk b ->
     find_native (handle_of_bytes b) all_natives = Some n -> simple n = true.
 
-Theorem step_keeps_natives_simple : forall F bld P reenter ip0 s ip' s',
-  step F bld P reenter ip0 s = SNext ip' s' ->
+Theorem step_keeps_natives_simple : forall F bld P reenter ip0 s s',
+  res_st (step F bld P reenter ip0 s) = Some s' ->
   native_pointers_simple P -> natives_simple (st_heap s) ->
   opcode_at P ip0 <> 4%N ->
   (opcode_at P ip0 = 11%N -> forall a h, top1 s = VObj a -> hget (st_heap s) a <> Some (ONative h)) ->
   natives_simple (st_heap s').
 Proof.
-  intros F bld P reenter ip0 s ip' s' H Hnp Hs H4 H11. unfold step in H. cbv zeta in H.
+  intros F bld P reenter ip0 s s' H Hnp Hs H4 H11. unfold step in H. cbv zeta in H.
   fold (opcode_at P ip0) in H. remember (opcode_at P ip0) as k eqn:Ek.
   assert (Heq : forall h', h' = st_heap s -> natives_simple h') by (intros h' ->; exact Hs).
   assert (Hn : forall h', no_new_natives (st_heap s) h' -> natives_simple h').
   { intros h' Hh. eapply natives_simple_nnn; eauto. }
   destruct k as [|p]; [|do 6 (try destruct p as [p|p|])]; try discriminate H;
     try (exfalso; apply H4; reflexivity).
+  all: try (match type of H with res_st (SExit _) = _ => cbn [res_st] in H; inversion H; subst; exact Hs end).
   all: try (apply Heq;
     match type of H with
     | context [binary_op] => eapply binary_op_heap; exact H
@@ -173,5 +183,5 @@ Proof.
         intros hd b n E1 E2 E3; eapply (Hnp ip0); eauto
     end).
   (* Pop *)
-  inversion H; subst. apply Heq. destruct (spop s) as [s1 v] eqn:E. cbn [fst]. eapply spop_heap; eauto.
+  cbn [res_st] in H. inversion H; subst. apply Heq. destruct (spop s) as [s1 v] eqn:E. cbn [fst]. eapply spop_heap; eauto.
 Qed.
